@@ -390,7 +390,51 @@ struct C10TdRefWorld: World {
     }
   }
 };
-static void register_extra() { static C10TdRefWorld t; registry().push_back(&t); }
+// classic quantiles images as another writer of the documented layout may produce them: compact, with the ordered flag clear and the base buffer in
+// arrival order (step 1, serial version 3), and the same content labelled serial version 2 (no flags, implicitly compact). Flags are independent bits
+// of the layout; the reader must recover the same logical content (n, extremes, ranks, quantiles) as from the image this library writes.
+struct C10QuantForeignWorld: World {
+  typedef datasketches::quantiles_sketch<double, std::less<double>, talloc<double>> S;
+  const char* name() const override { return "c10qq"; }
+  const char* step_name(int k) const override { return k == 1 ? "compact_unordered_v3" : "compact_unordered_v2"; }
+  std::string family_of(const Plan&) const override { return "quantiles-foreign-writer"; }
+  Plan generate(u64 run_seed, int) override { Plan p; p.run_seed = run_seed; Rng r(run_seed, "plan"); static const i64 ks[] = { 2, 4, 8, 16, 32, 128 }; const i64 k = r.pick(ks);
+    p.cfg = { k, r.range(2, 2 * k - 1), static_cast<i64>(r.below(4)), static_cast<i64>(r.below(3)), static_cast<i64>(r.below(100000)) };   // k, base-buffer count, full 2k blocks, order, salt
+    for (int i = 1; i <= 2; i++) { Step s; s.kind = i; p.steps.push_back(s); } return p; }
+  void execute(const Plan& p, Ctx& ctx) override {
+    alloc_state().reset_counters(); alloc_state().budget = static_cast<size_t>(1) << 30;
+    SimRandom rnd(p.run_seed); RandomScope rs(rnd);
+    const uint16_t k = static_cast<uint16_t>(p.cfg[0]); const u64 bb = static_cast<u64>(p.cfg[1]); const u64 n = static_cast<u64>(p.cfg[2]) * 2 * k + bb;
+    S sk(k, std::less<double>(), talloc<double>(1)); std::vector<double> vals;
+    for (u64 i = 0; i < n; i++) { u64 z = static_cast<u64>(p.cfg[4]) * 1000003ULL + i; vals.push_back(static_cast<double>(splitmix64(z) % 100000) / 8.0); sk.update(vals.back()); }
+    auto own = sk.serialize(); Bytes img(own.begin(), own.end());
+    const size_t off = 32; if (img.size() < off + 8 * bb || (img[3] & 0x18) != 0x18) { ctx.probe("own_image_not_compact_ordered"); return; }
+    std::vector<double> base(bb); std::memcpy(base.data(), img.data() + off, 8 * bb);
+    if (p.cfg[3] == 0) std::reverse(base.begin(), base.end()); else { Rng r(p.run_seed, "order"); for (size_t i = base.size(); i > 1; i--) std::swap(base[i - 1], base[r.below(i)]); }
+    if (std::is_sorted(base.begin(), base.end())) { ctx.probe("base_buffer_still_ascending"); return; }
+    std::memcpy(img.data() + off, base.data(), 8 * bb);
+    std::vector<double> grid; for (size_t i = 0; i < vals.size(); i += std::max<size_t>(1, vals.size() / 24)) { grid.push_back(vals[i]); grid.push_back(vals[i] + 0.0625); } grid.push_back(-1.0); grid.push_back(1e9);
+    int idx = 0;
+    for (const Step& s : p.steps) {
+      ctx.begin_step(idx++, s.kind); Bytes f = img;
+      if (s.kind == 1) f[3] = static_cast<uint8_t>(f[3] & ~0x10); else { f[1] = 2; f[3] = 0; }
+      const std::string fpfx = std::string("C10|quantiles<double>|") + step_name(s.kind) + "|";
+      auto judge = [&](const S& r, const char* reader) {
+        if (r.get_n() != n || r.get_k() != k || r.get_min_item() != sk.get_min_item() || r.get_max_item() != sk.get_max_item() || r.get_num_retained() != sk.get_num_retained())
+          ctx.fail(fpfx + reader + "-reads-foreign-image-differently", "n " + std::to_string(r.get_n()) + "/" + std::to_string(n) + " retained " + std::to_string(r.get_num_retained()) + "/" + std::to_string(sk.get_num_retained()));
+        for (double v : grid) if (r.get_rank(v) != sk.get_rank(v)) ctx.fail(fpfx + reader + "-reads-foreign-image-differently", "rank of " + hexd(v) + ": " + hexd(r.get_rank(v)) + " vs " + hexd(sk.get_rank(v)));
+        for (int i = 0; i <= 16; i++) { const double q = static_cast<double>(i) / 16.0; if (r.get_quantile(q) != sk.get_quantile(q)) ctx.fail(fpfx + reader + "-reads-foreign-image-differently", "quantile " + hexd(q) + ": " + hexd(r.get_quantile(q)) + " vs " + hexd(sk.get_quantile(q))); }
+        ctx.check(); };
+      try { ExactBuf eb(f.data(), f.size()); S a = S::deserialize(eb.p, eb.n, datasketches::serde<double>(), std::less<double>(), talloc<double>(1)); judge(a, "bytes-reader"); }
+      catch (const std::invalid_argument& e) { ctx.fail(fpfx + "bytes-reader-rejects-foreign-image", e.what()); }
+      try { SimFileBuf fb(f.data(), f.size(), 0, 5, static_cast<size_t>(-1), static_cast<size_t>(-1)); std::istream is(&fb); S b = S::deserialize(is, datasketches::serde<double>(), std::less<double>(), talloc<double>(1)); judge(b, "stream-reader");
+        ctx.require(fb.consumed() == f.size(), (fpfx + "stream-reader-consumed-wrong-length").c_str(), std::to_string(fb.consumed()) + " of " + std::to_string(f.size())); }
+      catch (const std::invalid_argument& e) { ctx.fail(fpfx + "stream-reader-rejects-foreign-image", e.what()); }
+      ctx.fault("version_skew"); ctx.nontrivial = true; ctx.probe(s.kind == 1 ? "foreign_quantiles_v3" : "foreign_quantiles_v2"); ctx.t(static_cast<u64>(f.size())); ctx.t(n);
+    }
+  }
+};
+static void register_extra() { static C10TdRefWorld t; registry().push_back(&t); static C10QuantForeignWorld q; registry().push_back(&q); }
 #else
 static void register_extra() {}
 #endif
